@@ -174,9 +174,12 @@ def _candidates(sc):
     return good
 
 
-def still_fails(cands, observables):
+def still_fails(cands, observables, deadline=None):
+    import time
     pairs = []
     for i, c in enumerate(cands):
+        if deadline is not None and time.time() > deadline:
+            break
         c = copy.deepcopy(c)
         c["id"] = i
         if c["api"] in ("find", "find_matches"):
@@ -207,7 +210,7 @@ def shrink_query(v, observables, rounds=25, budget_s=12.0):
         for _ in range(rounds):
             if time.time() - t0 > budget_s:
                 break
-            c, d = still_fails(_candidates(sc), observables)
+            c, d = still_fails(_candidates(sc), observables, t0 + budget_s)
             if c is None:
                 break
             sc = {k: x for k, x in c.items() if k != "id"}
@@ -287,9 +290,15 @@ def run_property(ctx, cfg, escalate=1):
             done += step
             if sum(1 for v in ctx.violations if v["level"] == "spec") >= 3:
                 break
+    def found():
+        return any(v["level"] == "spec" for v in ctx.violations)
     for fn in cfg["oracles"]:
+        if found():
+            break       # one replayable failing input is enough; do not keep running a broken tree
         fn(ctx)
     for fn in cfg["extra"]:
+        if found():
+            break
         fn(ctx, escalate)
     # generator health (DESIGN §6.1): a silently degenerate generator must not pass for coverage
     if cfg["streams"] and ctx.evaluations >= 500 and len(ctx.nontrivial) < 0.15 * ctx.evaluations:
@@ -396,3 +405,14 @@ register("C19", extra=[families.MutateFamily("listview", 1500, 60000, "results a
 register("C15", extra=[families.BuilderFamily("dag", 1500, 60000, "renderings and selections of expression derivation DAGs")],
          generated=["Reserved"],
          rule="derivation DAGs over path / pathd: attribute and item steps of every kind (incl. reserved attribute names, odd builder attributes, unsupported indices), siblings derived before and after their shared prefix was rendered or evaluated, equivalent spellings derived late from one prefix; compared: str()/repr() of every expression, results of evaluating it on random documents (keys with '-' and '_'), errors")
+
+register("C06", streams=[Q("all", apis=ALL_APIS, src=None, share=1)], n_quick=1500, n_thorough=60000,
+         observables=["results_exc"], oracles=[oracles.snapshot_oracle], generated=["Stores"],
+         rule="read-only calls (find / find_matches / get_match / get, traced and untraced, from a document or a Match, any has-family predicates) repeated 2-5 times on the same document and the same path object: deep snapshot (container identities, key order, list contents) before = after every call, the path renders like a never-evaluated twin, later evaluations select what the first did; plus the store table regenerated from the source")
+register("C16", streams=[Q("all", apis=ALL_APIS, src=None, share=1)], n_quick=1500, n_thorough=60000,
+         observables=["results_exc"], oracles=[oracles.documented_oracle, oracles.slice_mutation_oracle],
+         extra=[families.MutateFamily("set", 400, 15000, "error classes of set_ / set_match"),
+                families.MutateFamily("pop", 400, 15000, "error classes of pop / pop_match"),
+                families.BuilderFamily("dag", 400, 15000, "PathSyntaxError at construction for unsupported indices")],
+         generated=["ExcMro"],
+         rule="every API function (incl. nested variants, cascade / default options, set_ and pop at the root) on documents whose types mismatch the path at every level: the exception class chain is compared with the model; any exception outside the library's classes is a failing input; str()/repr() twice, equal, naming the path; unsupported indices at construction")
